@@ -217,6 +217,14 @@ SRCTIE = {
                                                                  "BlockCursor", "BlockCursor.move_on_first", "BlockCursor.move_on_last", "BlockCursor.move_on_next",
                                                                  "BlockCursor.move_on_prev", "BlockCursor.move_on_key_greater_than_or_equal_to",
                                                                  "BlockCursor.move_on_key_lower_than_or_equal_to"]),
+    "Grenad.SrcTie.NoPanic": ("SrcBlockCursor", ["Block", "Block.entry_at", "Block.payload", "Block.index_offsets",
+                                                                 "BlockCursor", "BlockCursor.current", "BlockCursor.move_on_first", "BlockCursor.move_on_last", "BlockCursor.move_on_next",
+                                                                 "BlockCursor.move_on_prev", "BlockCursor.move_on_key_greater_than_or_equal_to",
+                                                                 "BlockCursor.move_on_key_lower_than_or_equal_to"]),
+    "Grenad.SrcTie.EndToEnd": ("SrcBlockCursor,SrcBlockWriter", ["BlockWriter", "BlockWriter.insert", "BlockWriter.finish", "varint_encode32", "Block", "Block.entry_at", "Block.payload", "Block.index_offsets",
+                                                                 "BlockCursor", "BlockCursor.current", "BlockCursor.move_on_first", "BlockCursor.move_on_last", "BlockCursor.move_on_next",
+                                                                 "BlockCursor.move_on_prev", "BlockCursor.move_on_key_greater_than_or_equal_to",
+                                                                 "BlockCursor.move_on_key_lower_than_or_equal_to"]),
     "Grenad.SrcTie.Smoke": ("SrcBlockCursor,SrcBlockWriter", ["BlockCursor.move_on_next", "BlockCursor.move_on_prev", "BlockCursor.move_on_last",
                                                               "BlockCursor.move_on_key_lower_than_or_equal_to", "BlockCursor.move_on_key_greater_than_or_equal_to",
                                                               "BlockWriter.insert", "BlockWriter.finish"]),
@@ -224,7 +232,7 @@ SRCTIE = {
                                                      "BlockWriter.insert", "BlockWriter.finish", "varint_encode32"]),
 }
 for _p, _mods in {"C14": ["Varint", "Block", "C14Src"], "C13": ["Meta", "C13Src"], "C10": ["Meta", "C10Src"], "C09": ["Meta", "BlockWriter", "Varint", "C13Src"], "C04": ["IterRange", "IterNext", "C04C05Src"],
-                  "C05": ["IterPrefix", "C05Src", "IterNext", "C04C05Src"], "C18": ["BlockWriter", "C18Src"], "C15": ["BlockWriter", "WriterBuilder"], "C01": ["BlockWriter", "Varint", "Meta", "Block", "BlockCursor", "TBlockSrc", "BuiltSrc"], "C02": ["BlockCursor", "Smoke", "TBlockSrc"]}.items():
+                  "C05": ["IterPrefix", "C05Src", "IterNext", "C04C05Src"], "C18": ["BlockWriter", "C18Src"], "C15": ["BlockWriter", "WriterBuilder"], "C01": ["BlockWriter", "Varint", "Meta", "Block", "BlockCursor", "TBlockSrc", "BuiltSrc", "NoPanic", "EndToEnd"], "C02": ["BlockCursor", "Smoke", "TBlockSrc", "NoPanic"]}.items():
     PROPS[_p]["srctie"] = ["Grenad.SrcTie." + m for m in _mods]
 
 
